@@ -22,6 +22,12 @@
 use crate::errors::{ParseError, Result};
 use serde::{Deserialize, Serialize};
 
+/// First `max_chars` characters of a header component (never splits a character, whatever
+/// text a JSON document put into the field)
+fn truncate_chars(value: &str, max_chars: usize) -> String {
+    value.chars().take(max_chars).collect()
+}
+
 /// **Block 1: Basic Header**
 ///
 /// Sender identification and message routing information.
@@ -61,7 +67,7 @@ impl serde::Serialize for BasicHeader {
 
         // Normalize logical_terminal to exactly 12 characters for JSON
         let normalized_logical_terminal = if self.logical_terminal.len() > 12 {
-            self.logical_terminal[..12].to_string()
+            truncate_chars(&self.logical_terminal, 12)
         } else if self.logical_terminal.len() < 12 {
             format!("{:X<12}", self.logical_terminal)
         } else {
@@ -98,7 +104,7 @@ impl<'de> serde::Deserialize<'de> for BasicHeader {
 
         // Normalize logical_terminal to exactly 12 characters
         let normalized_logical_terminal = if helper.logical_terminal.len() > 12 {
-            helper.logical_terminal[..12].to_string()
+            truncate_chars(&helper.logical_terminal, 12)
         } else if helper.logical_terminal.len() < 12 {
             format!("{:X<12}", helper.logical_terminal)
         } else {
@@ -209,7 +215,7 @@ impl std::fmt::Display for BasicHeader {
 
         // Pad or truncate logical_terminal to exactly 12 characters
         let logical_terminal = if self.logical_terminal.len() > 12 {
-            self.logical_terminal[..12].to_string()
+            truncate_chars(&self.logical_terminal, 12)
         } else if self.logical_terminal.len() < 12 {
             // Pad with 'X' to reach 12 characters (standard for missing branch codes)
             format!("{:X<12}", self.logical_terminal)
@@ -218,16 +224,10 @@ impl std::fmt::Display for BasicHeader {
         };
 
         // Ensure session_number is exactly 4 digits, left-padded with zeros
-        let session_number = format!(
-            "{:0>4}",
-            &self.session_number[..self.session_number.len().min(4)]
-        );
+        let session_number = format!("{:0>4}", truncate_chars(&self.session_number, 4));
 
         // Ensure sequence_number is exactly 6 digits, left-padded with zeros
-        let sequence_number = format!(
-            "{:0>6}",
-            &self.sequence_number[..self.sequence_number.len().min(6)]
-        );
+        let sequence_number = format!("{:0>6}", truncate_chars(&self.sequence_number, 6));
 
         write!(
             f,
@@ -269,7 +269,7 @@ impl serde::Serialize for InputApplicationHeader {
 
         // Normalize destination_address to exactly 12 characters for JSON
         let normalized_destination_address = if self.destination_address.len() > 12 {
-            self.destination_address[..12].to_string()
+            truncate_chars(&self.destination_address, 12)
         } else if self.destination_address.len() < 12 {
             format!("{:X<12}", self.destination_address)
         } else {
@@ -313,7 +313,7 @@ impl<'de> serde::Deserialize<'de> for InputApplicationHeader {
 
         // Normalize destination_address to exactly 12 characters
         let normalized_destination_address = if helper.destination_address.len() > 12 {
-            helper.destination_address[..12].to_string()
+            truncate_chars(&helper.destination_address, 12)
         } else if helper.destination_address.len() < 12 {
             format!("{:X<12}", helper.destination_address)
         } else {
@@ -612,14 +612,11 @@ impl std::fmt::Display for InputApplicationHeader {
         // - priority is always 1 character
 
         // Ensure message_type is exactly 3 characters
-        let message_type = format!(
-            "{:0>3}",
-            &self.message_type[..self.message_type.len().min(3)]
-        );
+        let message_type = format!("{:0>3}", truncate_chars(&self.message_type, 3));
 
         // Pad or truncate destination_address to exactly 12 characters
         let destination_address = if self.destination_address.len() > 12 {
-            self.destination_address[..12].to_string()
+            truncate_chars(&self.destination_address, 12)
         } else if self.destination_address.len() < 12 {
             format!("{:X<12}", self.destination_address)
         } else {
